@@ -147,6 +147,37 @@ def interstitial_zoo(rng, n_random=1):
             pts.add(tuple(rng.randrange(6) / 6 for _ in range(3)))
         pts = [np.array(p) for p in sorted(pts)]
         out.append(('tric+i%d' % k, C(L, [[pts[0]], pts[1:]], chemistry=['A', 'X'], noreduce=True), 1))
+    out.extend(multiwyckoff_interstitial_zoo(rng))
+    return out
+
+
+MULTI_WYCKOFF = ('omega+i', 'mono3+i', 'tric3+i', 'B2x+i')
+
+
+def multiwyckoff_interstitial_zoo(rng):
+    """hosts in which one host species sits on several inequivalent Wyckoff positions"""
+    from onsager import crystal
+    C = crystal.Crystal
+    out = []
+    hexl = np.array([[0.5, 0.5, 0.], [-np.sqrt(0.75), np.sqrt(0.75), 0.], [0., 0., 0.613]])
+    omega = C(hexl, [np.array([0., 0., 0.]), np.array([1 / 3, 2 / 3, .5]), np.array([2 / 3, 1 / 3, .5])], chemistry=['Ti'])
+    out.append(('omega+i', omega.addbasis(omega.Wyckoffpos(np.array([.5, 0., .5])), chemistry=['O']), 1))    # 1a + 2d host
+    mono = np.array([[1., 0., 0.3], [0., 1.1, 0.], [0., 0., 1.2]])
+    m3 = C(mono, [np.array([0., 0., 0.]), np.array([.5, .25, .5]), np.array([.5, .75, .5])], chemistry=['A'])
+    out.append(('mono3+i', m3.addbasis(m3.Wyckoffpos(np.array([0., .5, .5])), chemistry=['X']), 1))
+    while True:
+        L = np.eye(3) + np.array([[rng.uniform(-.25, .25) if i != j else rng.uniform(0., .4) for j in range(3)]
+                                  for i in range(3)])
+        if abs(np.linalg.det(L)) > 0.5: break
+    pts = set()
+    while len(pts) < 5:
+        pts.add(tuple(rng.randrange(6) / 6 for _ in range(3)))
+    pts = [np.array(p) for p in sorted(pts)]
+    out.append(('tric3+i', C(L, [pts[:3], pts[3:]], chemistry=['A', 'X'], noreduce=True), 1))           # 3 host atoms, no symmetry
+    # two host species, the second on two inequivalent positions
+    tet = np.diag([1., 1., 1.3])
+    out.append(('B2x+i', C(tet, [[np.zeros(3)], [np.array([.5, .5, .5]), np.array([.5, .5, 0.])], [np.array([.5, 0., .25])]],
+                           chemistry=['A', 'B', 'X'], noreduce=True), 2))
     return out
 
 
@@ -155,7 +186,11 @@ def vacancy_zoo(rng):
     Z = dict((n, c) for n, c, i in zoo(rng, n_random=0))
     names = ['FCC', 'BCC', 'HCP', 'SC', 'B2', 'diamond', 'zincblende', 'hex-layer', 'honeycomb-layer', 'tetragonal',
              'mono', 'ortho-2']
-    return [(n, Z[n], 0) for n in names]
+    from onsager import crystal
+    hexl = np.array([[0.5, 0.5, 0.], [-np.sqrt(0.75), np.sqrt(0.75), 0.], [0., 0., 0.613]])
+    omega = crystal.Crystal(hexl, [np.array([0., 0., 0.]), np.array([1 / 3, 2 / 3, .5]), np.array([2 / 3, 1 / 3, .5])],
+                            chemistry=['Ti'])
+    return [(n, Z[n], 0) for n in names] + [('omega', omega, 0)]
 
 
 _CALCS = {}
